@@ -1438,3 +1438,33 @@ Proof.
       { apply map_get_spec; trivial. apply (Kw (k, v)); trivial. eauto. }
       rewrite G. exact E.
 Qed.
+
+(* `k in m` / containing decide by key presence alone: whatever value is stored under the key
+   (an undefined or none value included) *)
+Theorem in_map_iff_key_present m item k : wf (VMap m) -> wf item -> as_key item = Some k ->
+  (contains (VMap m) item = ROk true <-> exists k' v, In (k', v) m /\ key_norm k' = key_norm k) /\
+  (vm_in item (VMap m) = ROk (VBool true) <-> exists k' v, In (k', v) m /\ key_norm k' = key_norm k) /\
+  (test_containing (VMap m) item = ROk true <-> exists k' v, In (k', v) m /\ key_norm k' = key_norm k) /\
+  (forall k' v, In (k', v) m -> key_norm k' = key_norm k ->
+     contains (VMap m) item = ROk true /\ get_item_map m item = ROk v).
+Proof.
+  intros Wm Wi Hk. pose proof Wm as Wm0. apply wf_map in Wm as [Kw [Kd _]].
+  pose proof (as_key_wf _ _ Wi Hk) as Kk.
+  assert (P : map_get m k <> None <-> exists k' v, In (k', v) m /\ key_norm k' = key_norm k).
+  { split.
+    - destruct (map_get m k) as [v|] eqn:G; [|congruence]. intros _.
+      apply map_get_spec in G; trivial. destruct G as [k' [Hin Q]]. eauto.
+    - intros [k' [v [Hin Q]]]. assert (G : map_get m k = Some v) by (apply map_get_spec; eauto).
+      congruence. }
+  assert (C : contains (VMap m) item = ROk true <-> map_get m k <> None).
+  { cbn. rewrite Hk. destruct (map_get m k); split; congruence. }
+  split; [rewrite C; exact P|]. split.
+  - unfold vm_in. cbn [contains]. rewrite Hk. rewrite <- P.
+    destruct (map_get m k); split; congruence.
+  - split.
+    + cbn. rewrite Hk. rewrite <- P. destruct (map_get m k); split; congruence.
+    + intros k' v Hin Q. assert (G : map_get m k = Some v) by (apply map_get_spec; eauto).
+      split.
+      * apply C. congruence.
+      * unfold get_item_map. rewrite Hk, G. reflexivity.
+Qed.
